@@ -125,6 +125,7 @@ class Compiler:
 
     def compile(self, node: Program) -> CompiledFunction:
         """Compile a program to bytecode."""
+        self._scope_catch_parameters(node)
         body = node.body
         self._hoist_declarations(body)
 
@@ -468,6 +469,9 @@ class Compiler:
                 # Don't descend into the function body
             elif isinstance(current, function_types):
                 pass
+            elif isinstance(current, CatchClause):
+                var_set.add(current.param.name)
+                work_stack.append(current.body)
             elif isinstance(current, Node):
                 for value in current.__dict__.values():
                     if isinstance(value, Node):
@@ -829,10 +833,8 @@ class Compiler:
                 # Has catch block
                 self._emit(OpCode.CATCH)
                 # Store exception in catch variable
-                name = node.handler.param.name
-                self._add_local(name)
-                slot = self._get_local(name)
-                self._emit(OpCode.STORE_LOCAL, slot)
+                # (the parameter has a name of its own, see _scope_catch_parameters)
+                self._emit_store_variable(node.handler.param.name, declare=True)
                 self._emit(OpCode.POP)
                 if node.finalizer:
                     # Protect the catch clause so that finally also runs when it throws
@@ -976,6 +978,64 @@ class Compiler:
             raise NotImplementedError(
                 f"Cannot compile statement: {type(node).__name__}"
             )
+
+    def _scope_catch_parameters(self, program: Node) -> None:
+        """Give every catch parameter a name of its own.
+
+        A catch parameter is visible in its catch block only. Variables here are
+        function-wide slots, so each catch clause gets a fresh internal name
+        ("e@1": not an identifier a script can write) and the references to the
+        parameter inside the clause are renamed with it. The parameter then never
+        collides with a variable of the same name and is captured by closures
+        like any other local.
+        """
+        function_types = (
+            FunctionDeclaration,
+            FunctionExpression,
+            ArrowFunctionExpression,
+        )
+        counter = 0
+        # (node, renames in force) - iterative, programs nest deeply
+        work_stack: List[Tuple[Node, Dict[str, str]]] = [(program, {})]
+        while work_stack:
+            current, renames = work_stack.pop()
+            if isinstance(current, Identifier):
+                if current.name in renames:
+                    current.name = renames[current.name]
+                continue
+            if isinstance(current, CatchClause):
+                counter += 1
+                fresh = f"{current.param.name}@{counter}"
+                renames = dict(renames)
+                renames[current.param.name] = fresh
+            elif isinstance(current, function_types) and renames:
+                # parameters and declarations of the function shadow outer names
+                own = {p.name for p in current.params}
+                if isinstance(current.body, BlockStatement):
+                    self._collect_var_decls(current.body, own)
+                renames = {k: v for k, v in renames.items() if k not in own}
+            skip: List[Node] = []
+            if isinstance(current, MemberExpression) and not current.computed:
+                skip.append(current.property)  # a.b: b is a property name
+            elif isinstance(current, Property) and not current.computed:
+                skip.append(current.key)
+            elif isinstance(
+                current, (LabeledStatement, BreakStatement, ContinueStatement)
+            ):
+                if current.label is not None:
+                    skip.append(current.label)
+            elif isinstance(current, function_types):
+                if getattr(current, "id", None) is not None:
+                    skip.append(current.id)
+                skip.extend(current.params)
+            for value in current.__dict__.values():
+                if isinstance(value, Node):
+                    if not any(value is s for s in skip):
+                        work_stack.append((value, renames))
+                elif isinstance(value, list):
+                    for item in value:
+                        if isinstance(item, Node) and not any(item is s for s in skip):
+                            work_stack.append((item, renames))
 
     def _hoist_declarations(self, body: List[Node]) -> None:
         """Bind what ECMAScript binds before the first statement of a body runs.
